@@ -4,7 +4,7 @@ import re
 
 from ..core import AnalysisError, dotted, walk_no_nested, FuncTypes
 from ..cfg import CFG
-from ..util import calls_in, local_defs, depends_on, const_val, names_in
+from ..util import last_attr, calls_in, local_defs, depends_on, const_val, names_in
 
 ASSUMPTIONS = [
     'the value-level rule over all file contents is behavioural: not decided; decided are the class hierarchy vs the documented sections, '
@@ -143,11 +143,51 @@ def run(ctx):
     # ---------------------------------------------------------------- R19.3
     bc = repo.func(CFGM + ':build_config')
     loops = [n for n in walk_no_nested(bc) if isinstance(n, ast.For)]
-    mloop = [l for l in loops if any(isinstance(c, ast.Call) and isinstance(c.func, ast.Attribute) and c.func.attr == 'mro' for c in ast.walk(l.iter))]
-    if len(mloop) != 1:
+    bdefs = local_defs(bc)
+
+    def over_mro(it):
+        if any(isinstance(c, ast.Call) and isinstance(c.func, ast.Attribute) and c.func.attr == 'mro' for c in ast.walk(it)):
+            return True
+        if isinstance(it, ast.Name):
+            return any(over_mro(v) for v, k, st in bdefs.get(it.id, []) if k == 'assign')
+        if isinstance(it, ast.Call) and dotted(it.func) == 'reversed' and it.args:
+            return over_mro(it.args[0])
+        return False
+
+    def is_reversed(it):
+        if isinstance(it, ast.Call) and dotted(it.func) == 'reversed':
+            return True
+        if isinstance(it, ast.Name):
+            ds = [v for v, k, st in bdefs.get(it.id, []) if k == 'assign']
+            return len(ds) == 1 and (is_reversed(ds[0]) or (isinstance(ds[0], ast.ListComp) and is_reversed(ds[0].generators[0].iter)))
+        return False
+    mloops = [l for l in loops if over_mro(l.iter)]
+    if not mloops:
         raise AnalysisError('build_config: loop over the MRO not found')
-    ml = mloop[0]
-    ok = isinstance(ml.iter, ast.Call) and dotted(ml.iter.func) == 'reversed'
+    # the update that layers a section read from disk: recursive_update(config, <disk>[<c>.__name__], ...)
+    disk_ups = [c for c in calls_in(bc, nested=False) if ('func', CFGM + ':recursive_update') in cg.resolve(c.func, bc) and len(c.args) > 1 and
+                any(isinstance(x, ast.Subscript) and isinstance(x.slice, ast.Attribute) and x.slice.attr == '__name__' for x in ast.walk(c.args[1]))]
+    if not disk_ups:
+        raise AnalysisError('build_config: no update from a disk section named after the class')
+
+    def enclosing_loops(node):
+        out = []
+        p = repo.parent(node)
+        while p is not None and p is not bc:
+            if isinstance(p, ast.For):
+                out.append(p)
+            p = repo.parent(p)
+        return out
+    du = disk_ups[0]
+    enc = enclosing_loops(du)
+    ml = next((l for l in enc if l in mloops), mloops[0])
+    file_loops = [l for l in enc if any(isinstance(c, ast.Call) and last_attr(c) == '_load_config_files' for c in ast.walk(l.iter))]
+    ok = ml in enc and not file_loops
+    ctx.inst('R19.3', CFGM + ':build_config', 'section layering: %s' % ' > '.join('for %s in %s' % (ast.unparse(l.target), ast.unparse(l.iter)[:50]) for l in reversed(enc)), ok,
+             'sections are layered along the MRO over the already merged files: specificity decides first, file priority only within one section' if ok else
+             'the files are iterated outside the sections: a general section in a higher-priority file overrides a more specific section '
+             'in a lower-priority file (most-specific-section-wins is violated)', du)
+    ok = is_reversed(ml.iter)
     ctx.inst('R19.3', CFGM + ':build_config', repo.norm(ml.iter), ok, 'least specific class first, most specific last (wins)' if ok else
              'the MRO is not layered in reverse: the least specific section wins', ml)
     ups = [c for c in calls_in(ml) if ('func', CFGM + ':recursive_update') in cg.resolve(c.func, bc)]
@@ -156,13 +196,13 @@ def run(ctx):
         src = c.args[1] if len(c.args) > 1 else None
         if src is not None and any(isinstance(x, ast.Call) and isinstance(x.func, ast.Attribute) and x.func.attr == 'configured_traits' for x in ast.walk(src)):
             kinds.append(('defaults', c.lineno))
-        elif src is not None and any(isinstance(x, ast.Name) and x.id == 'disk_config' for x in ast.walk(src)):
+        elif src is not None and any(isinstance(x, ast.Subscript) and isinstance(x.slice, ast.Attribute) and x.slice.attr == '__name__' for x in ast.walk(src)):
             kinds.append(('disk', c.lineno))
     ok = [k for k, _ in sorted(kinds, key=lambda t: t[1])] == ['defaults', 'disk']
     ctx.inst('R19.3', CFGM + ':build_config', 'per class: %s' % [k for k, _ in sorted(kinds, key=lambda t: t[1])], ok,
-             'class defaults first, then the disk section of the same name' if ok else 'defaults are applied after (over) the disk section', ml)
-    disk_sub = [n for n in ast.walk(ml) if isinstance(n, ast.Subscript) and dotted(n.value) == 'disk_config']
-    ok = bool(disk_sub) and all(isinstance(s.slice, ast.Attribute) and s.slice.attr == '__name__' and dotted(s.slice.value) == ml.target.id for s in disk_sub)
+             'class defaults first, then the disk section of the same name' if ok else 'class defaults and the disk section of a class are not applied together (defaults, then disk) per class', ml)
+    disk_sub = [n for n in ast.walk(ml) if isinstance(n, ast.Subscript) and isinstance(n.slice, ast.Attribute) and n.slice.attr == '__name__']
+    ok = bool(disk_sub) and all(dotted(s.slice.value) == ast.unparse(ml.target) for s in disk_sub)
     ctx.inst('R19.3', CFGM + ':build_config', 'disk section key = %s' % (repo.norm(disk_sub[0].slice) if disk_sub else '?'), ok,
              'a class reads the section named after itself' if ok else 'section lookup is not by class name', ml)
     ins = [c for c in calls_in(bc, nested=False) if isinstance(c.func, ast.Attribute) and c.func.attr in ('insert', 'append') and dotted(c.func.value) == 'path']
@@ -176,7 +216,19 @@ def run(ctx):
     ctx.inst('R19.3', CFGM + ':_load_config_files', repo.norm(floops[0].iter) if floops else '?', ok,
              'files are yielded lowest priority first, so later (higher priority) ones overwrite' if ok else
              'files are not merged from lowest to highest priority', floops[0] if floops else lf)
-    dl = [l for l in loops if l is not ml]
+    # every directory on the path is loaded: the load is not skipped conditionally inside the loop
+    if floops:
+        from ..cfg import cond_guards as _cg
+        loads = [c for c in calls_in(floops[0]) if isinstance(c.func, ast.Attribute) and c.func.attr == 'load_config']
+        if not loads:
+            raise AnalysisError('_load_config_files: load_config() call not found')
+        gl = CFG(lf)
+        inside = [(t, pol) for t, pol in _cg(gl, repo.stmt_of(loads[0])) if any(t is x for x in ast.walk(floops[0]))]
+        ctx.inst('R19.3', CFGM + ':_load_config_files', repo.norm(loads[0]) + (' guarded by %s' % [repo.norm(t) for t, pol in inside] if inside else ' on every iteration'),
+                 not inside, 'each directory of the search path is read, in path order' if not inside else
+                 'a directory of the search path can be skipped inside the loop: with the reversed walk a skip-if-seen keeps the LOW-priority occurrence, so e.g. '
+                 'the working directory loses its precedence when it is also a jupyter config directory', loads[0])
+    dl = [l for l in loops if l not in mloops and any(isinstance(c, ast.Call) and last_attr(c) == '_load_config_files' for c in ast.walk(l.iter))]
     ok = len(dl) == 1 and any(('func', CFGM + ':recursive_update') in cg.resolve(c.func, bc) and dotted(c.args[0]) == 'disk_config' for c in calls_in(dl[0]))
     ctx.inst('R19.3', CFGM + ':build_config', 'disk config = recursive_update over the files in yielded order', ok,
              'later files overwrite earlier ones key by key' if ok else 'file configs are not merged by recursive_update', dl[0] if dl else bc)
